@@ -183,4 +183,54 @@ theorem mathSig_multiple (n s mode : Rat) (m : Int) (hs : s ≠ 0) (hn : n = (m 
 
 theorem even_eq_roundUp (x : Rat) : even x = roundUp 2 x := rfl
 
+/-! ## monotonicity on the non-negative side -/
+
+/-- two integer multiples of a positive unit: if `n*u ≤ a ≤ b < m*u + u` then `n ≤ m` -/
+theorem mult_le_of_bracket {n m : Int} {u a b : Rat} (hu : 0 < u) (h1 : (n : Rat) * u ≤ a) (hab : a ≤ b)
+    (h2 : b < (m : Rat) * u + u) : n ≤ m := by
+  rcases Int.lt_or_le m n with h | h
+  · have h' : m + 1 ≤ n := by omega
+    have := int_mul_le h' hu
+    have e : ((m + 1 : Int) : Rat) = (m : Rat) + 1 := by simp [Rat.intCast_add]
+    rw [e] at this
+    exfalso; grind
+  · exact h
+
+theorem roundDown_mono_nonneg (u x y : Rat) (hu : 0 < u) (hx : 0 ≤ x) (hxy : x ≤ y) :
+    roundDown u x ≤ roundDown u y := by
+  obtain ⟨n, _, hn, a1, a2⟩ := roundDown_spec u x hu
+  obtain ⟨m, _, hm, b1, b2⟩ := roundDown_spec u y hu
+  have hy : 0 ≤ y := Rat.le_trans hx hxy
+  have rx : rabs x = x := by unfold rabs; simp [hx]
+  have ry : rabs y = y := by unfold rabs; simp [hy]
+  rw [rx] at a1 a2; rw [ry] at b1 b2
+  have hnm : n ≤ m := mult_le_of_bracket hu a1 hxy b2
+  rw [hn, hm]; unfold withSign; simp only [hx, hy, ↓reduceIte]
+  exact int_mul_le hnm hu
+
+theorem roundUp_mono_nonneg (u x y : Rat) (hu : 0 < u) (hx : 0 ≤ x) (hxy : x ≤ y) :
+    roundUp u x ≤ roundUp u y := by
+  obtain ⟨n, _, hn, a1, a2⟩ := roundUp_spec u x hu
+  obtain ⟨m, _, hm, b1, b2⟩ := roundUp_spec u y hu
+  have hy : 0 ≤ y := Rat.le_trans hx hxy
+  have rx : rabs x = x := by unfold rabs; simp [hx]
+  have ry : rabs y = y := by unfold rabs; simp [hy]
+  rw [rx] at a1 a2; rw [ry] at b1 b2
+  have hnm : n ≤ m := mult_le_of_bracket (a := (n : Rat) * u) (b := (n : Rat) * u) hu Rat.le_refl Rat.le_refl (by grind)
+  rw [hn, hm]; unfold withSign; simp only [hx, hy, ↓reduceIte]
+  exact int_mul_le hnm hu
+
+theorem roundHalfAway_mono_nonneg (u x y : Rat) (hu : 0 < u) (hx : 0 ≤ x) (hxy : x ≤ y) :
+    roundHalfAway u x ≤ roundHalfAway u y := by
+  obtain ⟨n, _, hn, a1, a2⟩ := roundHalfAway_spec u x hu
+  obtain ⟨m, _, hm, b1, b2⟩ := roundHalfAway_spec u y hu
+  have hy : 0 ≤ y := Rat.le_trans hx hxy
+  have rx : rabs x = x := by unfold rabs; simp [hx]
+  have ry : rabs y = y := by unfold rabs; simp [hy]
+  rw [rx] at a1 a2; rw [ry] at b1 b2
+  have hnm : n ≤ m := mult_le_of_bracket (a := x + u / 2) (b := y + u / 2) hu a2 (by grind) (by grind)
+  rw [hn, hm]; unfold withSign; simp only [hx, hy, ↓reduceIte]
+  exact int_mul_le hnm hu
+
+
 end Pycel.Rounding
